@@ -97,7 +97,23 @@ def run(ctx):
     ctx.extra["generated_histories"] = {"states_with_hist": nstates, "replayed_twice": len(hist)}
     ctx.stage("twin-replay")
     from ..fixtures import pmap
-    jobs = [(i, [dict(o) for o in h], ctx.seed * 31 + i, ctx.scratch, (i % 25 == 0) or not q) for i, (h, _) in enumerate(hist)]
+    # every history in three notations; the full set of probes (all bound combinations) on every 25th (quick) / 4th (thorough) one
+    jobs = [(i, [dict(o) for o in h], ctx.seed * 31 + i, ctx.scratch, i % (25 if q else 4) == 0) for i, (h, _) in enumerate(hist)]
+    first = None
+    # processed and validated in slices: the recorded traces of a thorough run do not fit into memory at once
+    for j0 in range(0, len(jobs), 1500):
+        first = twin_slice(ctx, hist, jobs[j0:j0 + 1500], first)
+    ctx.sample(first)
+    # limits: successful growth to the documented limits (thorough only: a 1-column / 1-row table)
+    ctx.stage("limits")
+    limit_checks(ctx)
+    ctx.stage("selftest")
+    wbcheck.selftest(ctx)
+
+
+def twin_slice(ctx, hist, jobs, first):
+    from ..fixtures import pmap
+    ctx.stage("twin-replay")
     res = pmap(twin_job, jobs, ctx.workers, chunksize=4)
     traces = []
     for idx, (t_rc, t_a1, t_alt) in res:
@@ -117,14 +133,11 @@ def run(ctx):
             if any(e["out"] != "ok" or e.get("res") in ("IndexError", [["IndexError"]]) for e in t["ev"]):
                 ctx.distinct.add((idx, t["profile"]["a1"]))
             traces.append(t)
-    ctx.sample({"history": hist[0][0], "probe_events_per_run": len(traces[0]["ev"]) - len(hist[0][0])})
+    if first is None:
+        first = {"history": hist[jobs[0][0]][0], "probe_events_per_run": len(traces[0]["ev"]) - len(hist[jobs[0][0]][0])}
     ctx.stage("validate")
     wbcheck.validate(ctx, traces, nhandles=1, label="twin", batch=200)
-    # limits: successful growth to the documented limits (thorough only: a 1-column / 1-row table)
-    ctx.stage("limits")
-    limit_checks(ctx)
-    ctx.stage("selftest")
-    wbcheck.selftest(ctx)
+    return first
 
 
 def limit_checks(ctx):
